@@ -206,7 +206,7 @@ def run(eng, rep) -> None:
     dec = prog.func(DEC)
     ctor_local = None
     for cs in cg.sites_in(dec):
-        if cs.how == "ctor" and any(c.startswith(cc.ci.qual + ".") for c in cs.callees):
+        if cs.how == "ctor" and any(c.startswith(q + ".") for c in cs.callees for q in cc.quals):
             ctor_local = cs
     rep.check(ctor_local is not None, "R16.3", dec.file, dec.qual, "%s()" % cc.ci.name, "a fresh buffer per call", "decode does not create its buffer per call: bytes of an earlier, longer message remain readable behind a shorter input")
     if ctor_local is not None:
@@ -222,6 +222,22 @@ def run(eng, rep) -> None:
             if isinstance(n, ast.Call) and isinstance(n.func, ast.Attribute) and isinstance(n.func.value, ast.Name) and n.func.value.id == bname and n.func.attr not in read_methods:
                 feeds.append(n)
         fed = [c for c in feeds if any(isinstance(x, ast.Name) and x.id == dparam for a in c.args for x in ast.walk(a))]
+        ctor_fed = any(isinstance(x, ast.Name) and x.id == dparam for a in list(ctor_local.node.args) + [k.value for k in ctor_local.node.keywords] for x in ast.walk(a))
+        if ctor_fed and not feeds:
+            # the input is handed to the constructor: its __init__ must fill the store from that parameter and leave the cursor at 0
+            rq = next((q for q in cc.quals if any(c.startswith(q + ".") for c in ctor_local.callees)), None)
+            rinit = prog.classes[rq].methods.get("__init__") if rq else None
+            okf = False
+            if rinit is not None and len(rinit.params) >= 2:
+                ip = rinit.params[1].arg
+                uses = [n for n in walk_local(rinit.node) if isinstance(n, (ast.Assign, ast.AnnAssign, ast.Expr)) and any(isinstance(x, ast.Name) and x.id == ip for x in ast.walk(n))]
+                zero = any(isinstance(n, (ast.Assign, ast.AnnAssign)) and norm(n.targets[0] if isinstance(n, ast.Assign) else n.target) == cc.C and isinstance(n.value, ast.Constant) and n.value.value == 0 for n in walk_local(rinit.node))
+                okf = len(uses) == 1 and zero
+            if okf:
+                rep.ok("R16.3", dec.file, dec.qual, norm(ctor_local.node, 60), "the reader is constructed from the input: its constructor fills the store once from that argument and starts the cursor at 0")
+            else:
+                rep.undecided("R16.3", dec.file, dec.qual, norm(ctor_local.node, 60), "the input is handed to the buffer's constructor; how it fills the store is not in a recognised form")
+            return
         rep.check(len(fed) == 1 and len(feeds) == 1, "R16.3", dec.file, dec.qual, norm(fed[0], 60) if fed else "buffer fill", "the store is filled once, from the input", "the decode buffer is not filled exactly once from the input bytes")
         resets = [n for n in walk_local(dec.node) if isinstance(n, ast.Assign) and norm(n.targets[0]) == "%s.%s" % (bname, cc.cursor)]
         init0 = True  # __init__ sets cursor 0 (by construction of CursorClass)
